@@ -57,3 +57,16 @@ Theorem C05_same_live_templates_same_stored_routes :
     forall r0 i, RM (r_root (run b1 ops1)) r0 i <-> RM (r_root (run b2 ops2)) r0 i.
 Proof. exact reach_same_live_routes. Qed.
 Print Assumptions C05_same_live_templates_same_stored_routes.
+
+(* ---- the printing half: the same live set prints the same tree ----
+   [display] is the model of the Display implementation (Model/Display.v); [erase] forgets the shortcut flags and
+   dirty marks, which Display does not print.  Proof: the canonical tree of a route set is unique
+   (Proofs/UniqueP.v: canonical_unique). *)
+From WF Require Import Model.Display Proofs.UniqueP Proofs.UniqueDisplayP.
+Theorem C05_same_live_templates_print_identical_trees :
+  forall b1 b2 (ops1 ops2 : list op),
+    (forall x, In x (live_of b1 ops1) <-> In x (live_of b2 ops2)) ->
+    display (r_root (run b1 ops1)) = display (r_root (run b2 ops2))
+    /\ erase (r_root (run b1 ops1)) = erase (r_root (run b2 ops2)).
+Proof. exact reach_same_live_display. Qed.
+Print Assumptions C05_same_live_templates_print_identical_trees.
